@@ -5,6 +5,7 @@ import json, os, re, sys
 rnd, final_log = sys.argv[1], sys.argv[2]
 ORIGIN = {
  "10": "round 10: written by an independent sub-agent that was given only the property text, one-sentence descriptions of the nine earlier changes to avoid, the request for two cooperating sites that each look fine alone, and a scratch worktree",
+ "12": "round 12: written by an independent sub-agent that was given only the property text, one-sentence descriptions of the eleven earlier changes to avoid, the request for something reached through the public API beyond struct tags plus one ParseArgs call (programmatic construction and assignment of public fields, several operations on one parser, a cache that goes stale), and a scratch worktree (/tmp/wt12/Cnn)",
  "11": "round 11: written by an independent sub-agent that was given only the property text, one-sentence descriptions of the ten earlier changes to avoid, the request for an unusual input or declaration (boundary sizes, unusual bytes, unusual-but-legal types and tags, extreme positions) or two cooperating sites, and a scratch worktree (/tmp/wt11/Cnn)",
 }
 NOTES = json.load(open(os.path.join(os.path.dirname(__file__), "seeded_notes.json")))
